@@ -14,7 +14,7 @@ LEVEL_TEXT = ('Lean 4 theorems about an executable model of Spectrum._ufunc/_int
               'the smaller minimum and ends at the larger maximum; add/multiply (any commutative op) are commutative incl. the '
               'left/right sampling swap; scalar/vector operands act element-wise on the unchanged grid; the right operand is used '
               'in the left operand\'s unit. Model tied to the code by differential testing at ℚ.')
-LEVEL_NOTE = ('the scalar grid arithmetic of _interp_common (range, guard, number of intervals, linspace arguments), what each _sampling option selects and the wiring of Spectrum._ufunc (element-wise operand kinds, conversion of the right operand on a copy, no write to self, result units from the left operand) are regenerated as Gen/InterpGrid.lean; the model consumes them (bridge lemmas gridNum_eq, commonGrid_eq, samplingOf_eq) and operands_unchanged_structural is about the wiring. unit invariance is proved for unitless spectra (`unit_invariance_unitless`: re-expressing both operands and a numeric sampling in any unit rescales the result\'s grid and keeps its values, every operator; `ufunc_scale` is the k>0 core) and, end to end from valid operands (`ufunc_of_valid`: WF, valid grids, ≥ 2 samples, a named sampling option ⇒ the operation succeeds on a valid grid from the smaller minimum to the larger maximum with one value per wavelength and pointwise values; all side conditions derived), the result is a spectrum; the guard band is `operand_guard_band`; commutativity at driver level is `ufuncU_comm_same_units` (same units) and `ufuncU_comm_across_units` (unitless operands in different units); for density spectra (scope in ASSUMPTIONS) unit invariance and commutativity across units are proved for operators homogeneous of degree one, i.e. addition and subtraction (ufunc_value_scale: dividing both operands\' values and the fill by k divides the result by k; unit_invariance_density; ufuncU_comm_across_units_density and its instance add_comm_across_units_density, fill 0, equal flux units); for multiplication of densities only the '
+LEVEL_NOTE = ('the scalar grid arithmetic of _interp_common (range, guard, number of intervals, linspace arguments), which grid points belong to an operand (`_intersect`: Gen.intersectKeeps, and the two `_intersect(sᵢ.wave, commonwave, tol)` / `np.clip(commonwave[index], min, max)` call shapes checked by the generator; the model\'s operandAt is proved equal to the regenerated test for all arguments — operand_membership_is_code, with intersect_keeps_iff / intersect_keeps_ends stating the closed range widened by the guard band), which arithmetic each operator ends in (`a + b` → Spectrum.add → _ufunc(np.add, other, sampling, method, fill_value): Gen.operatorOp/operatorMethod/methodOp/reflectedAliases; pass-through order, the defaults and the left-operand-first order of the ufunc call are checked by the generator; operators_dispatch, add_mul_operators_commute), what each _sampling option selects and the wiring of Spectrum._ufunc (element-wise operand kinds, conversion of the right operand on a copy, no write to self, result units from the left operand) are regenerated as Gen/InterpGrid.lean; the model consumes them (bridge lemmas gridNum_eq, commonGrid_eq, samplingOf_eq) and operands_unchanged_structural is about the wiring. unit invariance is proved for unitless spectra (`unit_invariance_unitless`: re-expressing both operands and a numeric sampling in any unit rescales the result\'s grid and keeps its values, every operator; `ufunc_scale` is the k>0 core) and, end to end from valid operands (`ufunc_of_valid`: WF, valid grids, ≥ 2 samples, a named sampling option ⇒ the operation succeeds on a valid grid from the smaller minimum to the larger maximum with one value per wavelength and pointwise values; all side conditions derived), the result is a spectrum; the guard band is `operand_guard_band`; commutativity at driver level is `ufuncU_comm_same_units` (same units) and `ufuncU_comm_across_units` (unitless operands in different units); for density spectra (scope in ASSUMPTIONS) unit invariance and commutativity across units are proved for operators homogeneous of degree one, i.e. addition and subtraction (ufunc_value_scale: dividing both operands\' values and the fill by k divides the result by k; unit_invariance_density; ufuncU_comm_across_units_density and its instance add_comm_across_units_density, fill 0, equal flux units); for multiplication of densities only the '
               'hand-over step is proved (`unit_handover_partial`, a PARTIAL theorem: the right operand is used in the left operand\'s unit and the result carries the left units; it does not give invariance) and the clause, like "operands unchanged" and "result is a new object", '
               'is evaluated on the implementation by the oracle in every run (all 4 units, snapshots). Trusted: interp1d(linear), '
               'np.linspace, np.clip.')
@@ -24,7 +24,7 @@ OPS = ['C13']
 RULE = ('pairs of dyadic spectra (2..8 samples each; identical / nested / overlapping / touching / disjoint ranges; uniform and '
         'non-uniform grids), operators add/subtract/multiply/divide, sampling min/left/right/float, fill 0/1.5/2, all 16 wavelength-unit '
         'pairs, unitless and density values; scalar (int/float and NumPy scalars np.int64/int32/float32/bool_/float64/uint8 on the right, incl. power and reflected multiply) and vector operands; reflected forms of all five operators with ndarray / int64 ndarray / list / np.float64 / float / int / 0-d array on the left (result must be one element-wise Spectrum or a TypeError, left*s = s*left); (equal length, '
-        'length 1, wrong length). distinct = (kind, op, sampling, units, sizes, first data); non-trivial = ranges differ or units differ')
+        'length 1, wrong length); reuse histories (an operand used once — in an operation or sampled — then changed in place by to(<flux unit>) / to(<wavelength unit>) / assignment of `value`, then used again, linear and quadratic: the second result must equal the operation on fresh copies of the operands\' current data and, for linear, the independent pointwise reference). distinct = (kind, op, sampling, units, sizes, first data); non-trivial = ranges differ or units differ')
 TRUSTED = ['scipy.interpolate.interp1d(kind="linear") is the piecewise-linear interpolant; np.linspace(a,b,n)[i] = a + i(b-a)/(n-1); np.clip',
            'NumPy ufuncs add/subtract/multiply/true_divide/power act element-wise']
 UNPROVEN = ['commutativity across units and unit invariance for DENSITY spectra are proved for operators homogeneous of degree one — addition, subtraction — (ufunc_value_scale, unit_invariance_density with the fill value re-expressed as a density, instances add_sub_unit_invariance_density, ufuncU_comm_across_units_density / add_comm_across_units_density for fill 0 and equal flux units); for MULTIPLICATION of two densities (fill 0) they are oracle only (a product of densities does not rescale like a density: the oracle compares physical values)',
@@ -153,9 +153,24 @@ def generate(rng, tier):
             dt = ['float', 'float', 'int'][int(rng.integers(0, 3))]
             out.append({'kind': 'vector', 'fn': fn, 'w1': w, 'v1': [dyadic(rng, 0, 8, 3) if dt == 'float' else float(int(rng.integers(0, 9))) for _ in w],
                         'v': [dyadic(rng, 0.125, 8, 3) for _ in range(m)], 'as': ['list', 'array', 'tuple'][int(rng.integers(0, 3))], 'dt1': dt})
+    # an operand USED once (in an operation, or sampled) and then changed in place — value-unit conversion `to(<flux unit>)`, assignment
+    # of `value`, wavelength-unit conversion — and used AGAIN: the second result must be that of fresh spectra built from the
+    # operands as they are now (pointwise clause on the operands' CURRENT values; no state may survive from the first use)
+    FU = ['photlam', 'flam', 'wlam']
+    for i in range({'quick': 16, 'thorough': 300, 'search': 250}[tier]):
+        n1, n2 = int(rng.integers(3, 9)), int(rng.integers(3, 9))
+        w1 = inc_grid(rng, n1, start=dyadic(rng, 300, 500, 2), bits=2, maxstep=60.0)
+        w2 = inc_grid(rng, n2, start=w1[0] + int(rng.integers(-8, 120)) * 0.25, bits=2, maxstep=60.0)
+        vu = FU[int(rng.integers(0, 3))]
+        out.append({'kind': 'reuse', 'fn': OPSN[int(rng.integers(0, 3))], 'w1': w1, 'v1': [dyadic(rng, 0.125, 16, 3) for _ in w1], 'w2': w2, 'v2': [dyadic(rng, 0.125, 16, 3) for _ in w2],
+                    'vu': vu, 'to': [u for u in FU if u != vu][int(rng.integers(0, 2))], 'which': ['left', 'right'][int(rng.integers(0, 2))],
+                    'first': ['op', 'op', 'sample'][int(rng.integers(0, 3))], 'change': ['to-flux', 'to-flux', 'set-value', 'to-wave'][int(rng.integers(0, 4))],
+                    'vnew': [dyadic(rng, 0.125, 16, 3) for _ in range(max(n1, n2))], 'wu': [u for u in W if u != 'nm'][int(rng.integers(0, 3))],
+                    'method': ['linear', 'linear', 'linear', 'quadratic'][int(rng.integers(0, 4))]})
     return out
 
 def signature(c):
+    if c['kind'] == 'reuse': return f"reuse {c['fn']} {c['vu']}>{c['to']} {c['which']} {c['first']} {c['change']} {c['method']} {len(c['w1'])} {len(c['w2'])} {c['w1'][:2]}"
     if c['kind'] == 'reflected': return f"reflected {c['fn']} {c['left']} {len(c['w1'])} {c['w1'][:2]}"
     if c['kind'] == 'pair' and (c.get('method', 'linear') != 'linear' or c.get('vu2', c['vu']) != c['vu']): return f"pair* {c['method']} {c['vu']}/{c.get('vu2')} {c['fn']} {c['sampling']} {c['u1']} {c['u2']} {c['w1'][:2]} {c['w2'][:2]}"
     if c['kind'] == 'bb': return f"bb {c['fn']} {c['u1']} {c['ub']} {c['vu']} {c['temp']} {c['bb_left']} {c['w1'][:2]} {len(c['wb'])}"
@@ -164,6 +179,7 @@ def signature(c):
 def nontrivial(c): return c['kind'] != 'pair' or c.get('rel') == 'fine' or c['w1'] != c['w2'] or c['u1'] != c['u2']
 def tags(c):
     t = [c['kind'], 'op:' + c['fn']]
+    if c['kind'] == 'reuse': return t + ['reuse:first=' + c['first'], 'reuse:change=' + c['change'], 'reuse:operand=' + c['which'], 'method:' + c['method']]
     if c['kind'] == 'reflected': return t + ['left:' + c['left']]
     if c['kind'] == 'bb': return t + ['bb:' + ('left' if c['bb_left'] else 'right'), 'bb:units=' + ('same' if c['u1'] == c['ub'] else 'mixed')]
     if 'fk' in c: t.append('fill:' + c['fk'])
@@ -235,11 +251,64 @@ def _call(s1, fn, other, form='method', **kw):
     if form == 'method+kw' and 'method' not in kw: kw = dict(kw, method='linear')
     return getattr(s1, fn)(other, **kw)
 
+def _reuse(c, R):
+    """a, b; first use; change ONE operand in place; second use; the same operation on fresh spectra built from the operands' current data"""
+    dens, plain = ('left', 'right') if c['which'] == 'left' else ('right', 'left')
+    sp = {'left': R.Spectrum(np.array(c['w1']), np.array(c['v1']), waveunit='nm', valueunit=c['vu'] if dens == 'left' else None),
+          'right': R.Spectrum(np.array(c['w2']), np.array(c['v2']), waveunit='nm', valueunit=c['vu'] if dens == 'right' else None)}
+    kw = {} if c['method'] == 'linear' else {'method': c['method']}
+    op = lambda x, y: getattr(x, c['fn'])(y, **kw)
+    fresh = lambda s_: R.Spectrum(np.array(s_.wave, dtype=float).copy(), np.array(s_.value, dtype=float).copy(), waveunit=s_.waveunit, valueunit=s_.valueunit)
+    o = {}
+    try:
+        t = sp[dens]
+        if c['first'] == 'op': o['r1'] = _out(op(sp['left'], sp['right']))
+        else: o['r1s'] = [float(x) for x in t.sample(np.array(t.wave[:-1]) + 0.125, waveunit='nm', **kw)]
+        if c['change'] == 'to-flux': t.to(c['to'])
+        elif c['change'] == 'to-wave': t.to(c['wu'])
+        else: t.value = np.array(c['vnew'][:len(t.wave)])
+        o['r2'] = _out(op(sp['left'], sp['right']))
+        o['r2_fresh'] = _out(op(fresh(sp['left']), fresh(sp['right'])))
+        o['left'], o['right'] = _out(sp['left']), _out(sp['right'])
+    except Exception as e:
+        o['exc'] = type(e).__name__; o['msg'] = str(e)[:120]
+    return o
+
+def _oracle_reuse(c, io):
+    if 'exc' in io: return f"reuse: {io['exc']}: {io.get('msg')}"
+    a, b = io['r2'], io['r2_fresh']
+    if (a['wu'], a['vu']) != (b['wu'], b['vu']): return f"second use: units {a['wu']},{a['vu']} but {b['wu']},{b['vu']} from fresh copies of the operands"
+    if len(a['wave']) != len(b['wave']) or any(abs(x - y) > 1e-12 * (1 + abs(y)) for x, y in zip(a['wave'], b['wave'])):
+        return f"second use: grid {a['wave'][:4]}… differs from the grid of fresh copies {b['wave'][:4]}…"
+    sc = max([abs(y) for y in b['value']] + [1e-300])
+    bad = [(i, x, y) for i, (x, y) in enumerate(zip(a['value'], b['value'])) if not abs(x - y) <= 1e-9 * sc]
+    if bad:
+        i, x, y = bad[0]
+        return (f"an operand used before and then changed in place ({c['change']}, {c['which']} operand, first use: {c['first']}) is not seen with its current values: "
+                f"{c['fn']} gives {x!r} at grid point {i} (λ={a['wave'][i]}), fresh copies of the same operands give {y!r} ({len(bad)} of {len(b['value'])} points differ)")
+    if c['method'] == 'linear':
+        # independent pointwise reference on the operands' CURRENT data (both in the left operand's wavelength unit)
+        L, Rr = io['left'], io['right']
+        k = float(MPU[Rr['wu']] / MPU[L['wu']])
+        rw = [x * k for x in Rr['wave']]
+        rv = [v / k for v in Rr['value']] if Rr['vu'] is not None else Rr['value']
+        g = np.array(a['wave'])
+        tol = 1e-9 * (g[1] - g[0]) if len(g) > 1 else 0.0
+        f = lambda xs, ys: np.where((g >= xs[0] - tol) & (g <= xs[-1] + tol), np.interp(np.clip(g, xs[0], xs[-1]), xs, ys), 0.0)
+        ref = {'add': np.add, 'subtract': np.subtract, 'multiply': np.multiply, 'divide': np.divide}[c['fn']](f(L['wave'], L['value']), f(rw, rv))
+        sc = max(float(np.max(np.abs(ref))), 1e-300)
+        d = np.abs(np.array(a['value']) - ref)
+        if not np.all(d <= 1e-7 * sc): 
+            i = int(np.argmax(d))
+            return f"second use is not op(interp(a), interp(b)) of the operands' current values: {a['value'][i]!r} vs {float(ref[i])!r} at λ={a['wave'][i]} ({c['change']}, first use: {c['first']})"
+    return None
+
 def impl(c):
     R = _R()
     with warnings.catch_warnings():
         warnings.simplefilter('ignore')
         k = c['kind']
+        if k == 'reuse': return _reuse(c, R)
         if k == 'pair':
             s1, s2 = _mk(R, c['w1'], c['v1'], c['u1'], c['vu'], c.get('dt1', 'float')), _mk(R, c['w2'], c['v2'], c['u2'], c.get('vu2', c['vu']), c.get('dt2', 'float'))
             o = {'s1': _out(s1), 's2': _out(s2)}
@@ -336,7 +405,7 @@ def _single(c, R, s1):
 def requests(c, io):
     if '_harness_exc' in io or 'guard' in io: return []
     k = c['kind']
-    if k == 'bb': return []
+    if k in ('bb', 'reuse'): return []
     if k == 'reflected':
         if 'res' not in io or c['fn'] != 'multiply': return []
         s1 = {'wave': qs(c['w1']), 'value': qs(c['v1'])}
@@ -424,6 +493,7 @@ def _oracle_reflected(c, io):
 def oracle(c, io):
     k = c['kind']
     if k == 'reflected': return _oracle_reflected(c, io)
+    if k == 'reuse': return _oracle_reuse(c, io)
     if k == 'bb' and 'guard' not in io: return _oracle_bb(c, io)
     if 'guard' in io:
         return ('grid does not span the union at the requested sampling: the operation on %d and %d samples tried to build an absurd grid (%s)'
